@@ -16,6 +16,8 @@ DEPS = ["theories/Proofs/C19_proofs.vo", "theories/Proofs/NewlineFacts.vo", "the
 BIDI = ["‪", "‫", "‬", "‭", "‮", "⁦", "⁧", "⁨", "⁩", "‏"]
 
 BASE = [
+    "from .subprocess import Popen\nfrom . import pickle\nfrom .. import telnetlib\nPopen('ls ' + cmd, shell=True)\npickle.loads(x)\n",
+    "from .helpers import run as system\nimport os\nos.system('ls')\nsystem('ls')\n",
     "import pickle\nimport subprocess\n\ndef f(password='x'):\n    assert password\n    return pickle.loads(password)\n\nsubprocess.Popen(\n    cmd,\n    shell=True)\n",
     "x = 1\n",
     "import os\nos.system('ls')  # nosec B605\ns = '/tmp/x'\ntry:\n    pass\nexcept Exception:\n    pass\n",
@@ -24,9 +26,12 @@ BASE = [
 ]
 
 
-def with_bidi(rng):
+KINDS = ["comment", "string", "first", "last", "identifier-adjacent", "two", "comments-only", "docstring-only"]
+
+
+def with_bidi(rng, kind=None):
     ch = rng.choice(BIDI)
-    kind = rng.choice(["comment", "string", "first", "last", "identifier-adjacent", "two"])
+    kind = kind or rng.choice(KINDS)
     if kind == "comment":
         src = "x = 1\n# note %s here\ny = 2\n" % ch
     elif kind == "string":
@@ -35,6 +40,10 @@ def with_bidi(rng):
         src = "# %s\nx = 1\n" % ch
     elif kind == "last":
         src = "x = 1\ny = 2  # %s" % ch
+    elif kind == "comments-only":
+        src = "# licence header\n# note %s here\n\n" % ch
+    elif kind == "docstring-only":
+        src = '"""module %s docstring"""\n' % ch
     elif kind == "identifier-adjacent":
         src = "def f(a):\n    return a  #%s\nf(1)\n" % ch
     else:
@@ -65,7 +74,14 @@ def variants_cookie(src):
 
 
 def run_channel(data, channel, d, k):
-    if channel == "file":
+    if channel == "package-file":
+        pd = os.path.join(d, "pkg%d" % k)
+        os.makedirs(pd, exist_ok=True)
+        open(os.path.join(pd, "__init__.py"), "w").write("")
+        p = os.path.join(pd, "runner.py")
+        open(p, "wb").write(data)
+        r = climain.run_main(["-q", "-f", "json", p])
+    elif channel == "file":
         p = os.path.join(d, "prog%d.py" % k)
         open(p, "wb").write(data)
         r = climain.run_main(["-q", "-f", "json", p])
@@ -96,7 +112,7 @@ def run(R, replay=None):
               "skipped with a reason; whole-scan correspondence of the B613 model; non-trivial = every run")
     d = impl.scratch()
     n_bidi = 12 if R.tier == "quick" else 200
-    progs = [(s, "plain") for s in BASE] + [with_bidi(rng) for _ in range(n_bidi)]
+    progs = [(s, "plain") for s in BASE] + [with_bidi(rng, kd) for kd in KINDS] + [with_bidi(rng) for _ in range(n_bidi)]
     k = 0
     for src, kind in progs:
         base_r, base = run_channel(src.encode("utf-8"), "file", d, k)
@@ -110,8 +126,10 @@ def run(R, replay=None):
                                  "observed": base["results"], "signature": None})
         for shift, vs in ((0, variants(src, False)), (1, variants_cookie(src))):
             for vname, data in vs:
-                for channel in ("file", "stdin"):
+                for channel in ("file", "stdin", "package-file"):
                     if vname == "lf" and channel == "file":
+                        continue
+                    if channel == "package-file" and vname not in ("lf", "crlf"):
                         continue
                     r, res = run_channel(data, channel, d, k)
                     k += 1
